@@ -175,6 +175,7 @@ def run(res, tier, seed, replay_script=None):
         s2 = dict(spec)
         s2["outs"] = len(fl)
         vals = [fval(f, xc[i]) for i in range(npt) for f in fl]
+        spec["_vals"] = vals
         lines2 += ["case " + cid, gl.make_cmd(s2)]
         if spec.get("trans"):
             lines2.append(gl.trans_cmd(spec["trans"]))
@@ -269,6 +270,24 @@ def run(res, tier, seed, replay_script=None):
                                       f[0], list(f[1]), X[xi * d:(xi + 1) * d], got, want, e, lam, script[1]), replay)
                     break
             else:
+                # the interpolation weights at x reproduce every loaded function too (weights . values = exact value), not only their sum
+                vals0 = spec.get("_vals", [])
+                if len(iw) == nx * npt and len(vals0) == npt * M:
+                    for k, f in enumerate(fl):
+                        want = fval(f, xcan)
+                        gotw = math.fsum(iw[xi * npt + i] * vals0[i * M + k] for i in range(npt))
+                        e = abs(gotw - want) / (max(1.0, abs(want)) * max(1.0, lam))
+                        if e > TOL:
+                            keyw = "weights-not-exact:%s" % (rule if fam in ("global", "sequence") else fam)
+                            if f[0] == "ccz" and any(f[1][j] in (3, 5, 9, 17, 33) for j in range(d)):
+                                keyw = "iexact-overstated-by-one:clenshaw-curtis-zero"
+                            t_ = spec.get("trans")
+                            if fam == "wavelet" and spec.get("order") == 3 and t_ and any(X[xi * d + j] in (t_[0][j], t_[1][j]) for j in range(d)):
+                                keyw = "wavelet-order3-boundary-under-transform"
+                            stats["violations"] += 1
+                            res.violation(keyw, "interpolation weights x values of %s %s at x=%s give %.12g, exact %.12g (Lebesgue sum %.3g) [%s]" % (
+                                f[0], list(f[1]), X[xi * d:(xi + 1) * d], gotw, want, lam, script[1]), replay)
+                            break
                 if len(iw) == nx * npt and not (fam == "global" and spec["rule"] == "clenshaw-curtis-zero"):
                     ws = sum(iw[xi * npt + i] for i in range(npt))
                     e = abs(ws - 1.0) / max(1.0, lam)
